@@ -496,3 +496,41 @@ func ZZ_C17_RateLimit() {
 	zzvf.Observe("appended", len(after)-len(before))
 	zzvf.Reach("ratelimit")
 }
+
+// Rotation setting toggled at run time (what ApplyConfig assigns), a cycle after each
+// change: off -> lines go to <id>-<oname>.log; on again -> lines go to the dated file;
+// (and the reverse history starting with rotation off)
+//vf: paths=200
+func ZZ_C17_RotationToggle() {
+	home := zzvf.FsHome()
+	defer zzvf.FsCleanup()
+	d1 := zzDayMs(2026, 5, 17)
+	zzvf.Clock = d1 + 8*3600000 + int64(zzvf.IntRange(0, 3600000))
+	startOn := zzvf.Choose(2) == 0
+	lg := zzStart(home, logger.LOG_LEVEL_DEBUG, 0, 7, startOn)
+	dated := filepath.Join(home, "logs", "whatap-boot-"+zzYmd(d1)+".log")
+	plain := filepath.Join(home, "logs", "whatap-boot.log")
+	which := func(on bool) string {
+		if on {
+			return dated
+		}
+		return plain
+	}
+	on := startOn
+	for step := 0; step < 3; step++ {
+		on = !on
+		lg.conf.rotationEnabled = on
+		zzvf.Clock += 11000
+		lg.process()
+		m := zzvf.String(2)
+		lg.Warn(m)
+		r := "[Warn]  " + m + "\n\n"
+		b, ok := zzvf.FsRead(which(on))
+		good := ok && len(b) >= zzHdr+len(r)
+		zzvf.Assert(good, "toggle/file-for-the-setting-in-force-exists/"+zzItoa(step))
+		if good {
+			zzvf.Assert(zzRecords(b[len(b)-zzHdr-len(r):], []string{r}), "toggle/line-after-the-cycle-goes-to-the-file-for-the-setting-in-force/"+zzItoa(step))
+		}
+	}
+	zzvf.Reach("rotation-toggle")
+}
